@@ -144,7 +144,11 @@ func TestC04Enum(t *testing.T) {
 func genHistory(condPct int, ro bool, minSteps, maxSteps int) *rapid.Generator[SeqCase] {
 	return rapid.Custom(func(t *rapid.T) SeqCase {
 		c := SeqCase{Store: rapid.SampledFrom(gcs.Stores).Draw(t, "store")}
-		names := rapid.SliceOfNDistinct(rapid.SampledFrom(gcs.NamePool), 1, 4, func(s string) string { return s }).Draw(t, "names")
+		names := rapid.SliceOfNDistinct(rapid.SampledFrom(gcs.AllNames), 1, 4, func(s string) string { return s }).Draw(t, "names")
+		if rapid.IntRange(0, 5).Draw(t, "nest") == 0 {
+			// names in each other's way: exercises the sequence "delete what is below / above, then use the name"
+			names = rapid.SliceOfNDistinct(rapid.SampledFrom(gcs.NestNames), 2, 4, func(s string) string { return s }).Draw(t, "nestnames")
+		}
 		buckets := gcs.BucketPool[:rapid.IntRange(1, 2).Draw(t, "nbuckets")]
 		step := rapid.Custom(func(t *rapid.T) gcs.Op {
 			bucket := func() string { return rapid.SampledFrom(buckets).Draw(t, "bucket") }
